@@ -418,6 +418,13 @@ func run(env *ev.Env, c Case) (o ev.Outcome) {
 			if !ok || bytes.Equal(nb, w.Body) {
 				return false
 			}
+			if q.Mode == sigreq.ModeUnsignedTrailer && !strings.HasPrefix(m.Kind, "trailer-") {
+				// unsigned chunks: a mutant that decodes to the same payload with the trailer intact is only a
+				// different chunking of the same upload (e.g. two all-zero chunks swapped), not a modification
+				if walked, end := sigreq.WalkChunks(nb); end == "final" && bytes.Equal(walked, s.Payload) {
+					return false
+				}
+			}
 			mutatedBody = nb
 			w.SetBody(nb)
 			return true
